@@ -242,7 +242,12 @@ class Engine:
         return res
 
     # -- obligations ---------------------------------------------------------------------------
-    def oblige(self, st: State, cls: str, role: str, goal, line=0, note=''):
+    def oblige(self, st: State, cls: str, role: str, goal, line=0, note='', _split=True):
+        # conjunctive goals are split conjunct by conjunct (small queries are the stable ones)
+        if _split and is_z3(goal) and z3.is_and(goal) and goal.num_args() > 1:
+            for k, g in enumerate(goal.children()):
+                self.oblige(st, cls, f'{role}~{k}', g, line, note, _split=True)
+            return
         base = f'{self.fn}::{cls}::{role}'
         k = self.names.get(base, 0)
         self.names[base] = k + 1
@@ -1339,9 +1344,12 @@ class Engine:
             hst.facts.append(e)
         # arithmetic hints: valid identities (proved on their own, with no hypotheses) that the solver will not find
         if hasattr(spec, 'hints'):
-            for name, e in spec.hints(Ctx(self, hst, entry=entry)):
-                # proved in the loop-head context (instances of axioms / arithmetic identities), then used as a fact
-                self.oblige(hst, 'L', f'loop{k}:lemma:{name}', e, line)
+            for h in spec.hints(Ctx(self, hst, entry=entry)):
+                name, e = h[0], h[1]
+                # proved in the loop-head context (instances of axioms), or - for pure arithmetic identities - with no
+                # hypotheses at all (a small quantifier-free query); then used as a fact
+                self.oblige(State() if len(h) > 2 and h[2] == 'pure' else hst, 'L', f'loop{k}:lemma:{name}', e, line,
+                            _split=False)
                 hst.facts.append(e)
         # 3. an arbitrary iteration
         it = hst.clone()
